@@ -10,6 +10,7 @@ import numpy as np
 from harness.coqio import flit, lst, opt, blit, zlit, natlit
 
 SOLVERS = ("DE", "DE2", "NM")
+MODELLED = ("DE", "DE2", "NM", "POW")
 STRATEGIES = ["Best1Exp", "Best1Bin", "Rand1Exp", "Rand1Bin", "RandToBest1Exp", "RandToBest1Bin",
               "Best2Exp", "Best2Bin", "Rand2Exp", "Rand2Bin"]
 
@@ -104,6 +105,8 @@ class Rec:
         self.nstep = 0            # number of _Step executions so far
         self.state = dict(inplace=False)
         self.solve_inputs = None  # list collecting per-Step inputs while Solve runs
+        self.ls = []              # Powell: line searches of the current Step: dict(probes=[...], ret=index)
+        self.cur_ls = None
 
     def fork(self):
         r = Rec(self.tabs)
@@ -185,7 +188,10 @@ class ObjRec(object):
     def __call__(self, x):
         rec = REG.get(self.tag)
         if rec is not None:
-            rec.obj_args.append(_vec(x))
+            if rec.cur_ls is not None:
+                rec.cur_ls.append(_vec(x))
+            else:
+                rec.obj_args.append(_vec(x))
         return self.inner(x)
 
 
@@ -230,8 +236,8 @@ def retag(solver, tag):
 def step_inputs(solver, rec):
     i = dict(trials=list(rec.trials), cands=list(rec.obj_args), deco=rec.deco_pop,
              inplace=bool(rec.state.get("inplace") and not solver._useStrictRange),
-             perm=(rec.perms[-1] if rec.perms else None))
-    rec.trials, rec.obj_args, rec.deco_pop, rec.perms = [], [], None, []
+             perm=(rec.perms[-1] if rec.perms else None), ls=list(rec.ls), ndim=len(solver.population[0]))
+    rec.trials, rec.obj_args, rec.deco_pop, rec.perms, rec.ls = [], [], None, [], []
     return i
 
 
@@ -308,6 +314,22 @@ class Instrumented:
             self._cost = (w, self._cost[1], self._cost[2])
             return w
         patch(AbstractSolver, "_decorate_objective", decoA)
+        import mystic.scipy_optimize as so
+        orig_ls = so._linesearch_powell
+        def ls_rec(func, p, xi, *a, **k):
+            rec = REG.get(getattr(func, "tag", None)) if isinstance(func, ObjRec) else None
+            if rec is None:
+                return orig_ls(func, p, xi, *a, **k)
+            rec.cur_ls = []
+            try:
+                r = orig_ls(func, p, xi, *a, **k)
+            finally:
+                probes, rec.cur_ls = rec.cur_ls, None
+            xr = _vec(r[1])
+            idx = max([j for j, q in enumerate(probes) if q == xr] or [-1])
+            rec.ls.append(dict(probes=probes, ret=idx, x=xr))
+            return r
+        patch(so, "_linesearch_powell", ls_rec)
         _argsort = np.argsort
         def argsort_rec(a, *args, **kw):
             r = _argsort(a, *args, **kw)
@@ -520,7 +542,7 @@ def yv(y):
 
 PREAMBLE = r"""
 From Coq Require Import ZArith.
-From MV Require Import Common.Num Core.Machine Core.DE Core.NM Core.Exec.
+From MV Require Import Common.Num Core.Machine Core.DE Core.NM Core.Powell Core.Exec.
 From Coq Require Import PrimFloat.
 Open Scope Z_scope.
 """
@@ -548,7 +570,7 @@ def modelled(case):
     for op in case["ops"]:
         if op["op"] == "SetStrictRanges" and (op.get("tight") is not None or op.get("clip") is not None):
             return False
-    return case["solver"] in SOLVERS
+    return case["solver"] in MODELLED
 
 
 def script_coq(case, out):
@@ -560,8 +582,14 @@ def script_coq(case, out):
         return "(%s : list (list float * list float))" % lst(["(%s, %s)" % (fl(a), fl(b)) for a, b, kk in out["cons_tab"] if kk == k])
     def tab_pen(k):
         return "(%s : list (list float * float))" % lst(["(%s, %s)" % (fl(a), flit(b)) for a, b, kk in out["pen_tab"] if kk == k])
-    inmk = "mk_de_in" if kind in ("DE", "DE2") else "mk_nm_in"
+    inmk = "mk_de_in" if kind in ("DE", "DE2") else "mk_nm_in" if kind == "NM" else "mk_pw_in"
     def inp(i):
+        if kind == "POW":
+            n = i.get("ndim", case["ndim"])
+            lss = "(%s : list (list (list float) * nat))" % lst(["(%s, %s)" % (fll(l["probes"]), natlit(max(l["ret"], 0))) for l in i["ls"]])
+            took = len(i["ls"]) > n
+            x2 = opt(i["cands"][0] if (i["cands"] and i["ls"]) else None, fl)
+            return "(mk_pw_in %s %s %s %s)" % (lss, x2, blit(took), opt(i["deco"], fll))
         if kind in ("DE", "DE2"):
             return "(%s %s %s)" % (inmk, fll(i["trials"]), opt(i["deco"], fll))
         return "(%s %s %s %s %s)" % (inmk, fll(i["cands"]), opt(i["deco"], fll), blit(i.get("inplace", False)),
@@ -593,7 +621,9 @@ def script_coq(case, out):
         elif o == "Step":
             ops.append("@OStep NumF _ %s %s" % (blit(op.get("cb", False)), inp(res["inputs"][0])))
         elif o == "Solve":
-            ops.append("@OSolve NumF _ %s %s (%s nil None%s)" % (blit(op.get("cb", False)), lst([inp(i) for i in res["inputs"]]), inmk, "" if kind in ("DE", "DE2") else " false nil"))
+            dflt = {"DE": "(mk_de_in nil None)", "DE2": "(mk_de_in nil None)", "NM": "(mk_nm_in nil None false nil)",
+                    "POW": "(mk_pw_in nil None false None)"}[kind]
+            ops.append("@OSolve NumF _ %s %s %s" % (blit(op.get("cb", False)), lst([inp(i) for i in res["inputs"]]), dflt))
         elif o == "Finalize":
             ops.append("@OFinalize NumF _")
         elif o == "RequestExit":
@@ -617,7 +647,7 @@ def check_term(case, out, mask):
     """bool term: the machine reproduces the observed trace (mask selects the compared observables)"""
     kind = case["solver"]
     lets, ops = script_coq(case, out)
-    runner = {"DE": "run_de false", "DE2": "run_de true", "NM": "run_nm"}[kind]
+    runner = {"DE": "run_de false", "DE2": "run_de true", "NM": "run_nm", "POW": "run_pw"}[kind]
     exp = lst([obs_coq(s, True) for s in out["trace"]])
     calls = "(%s : list (list float * yval NumF))" % lst(["(%s, %s)" % (fl(c["x"]), yv(c["y"])) for c in out["calls"]])
     cbs = fll(out["cb"])
@@ -628,7 +658,7 @@ def check_term(case, out, mask):
 def debug_term(case, out):
     kind = case["solver"]
     lets, ops = script_coq(case, out)
-    runner = {"DE": "run_de false", "DE2": "run_de true", "NM": "run_nm"}[kind]
+    runner = {"DE": "run_de false", "DE2": "run_de true", "NM": "run_nm", "POW": "run_pw"}[kind]
     exp = lst([obs_coq(s, True) for s in out["trace"]])
     calls = "(%s : list (list float * yval NumF))" % lst(["(%s, %s)" % (fl(c["x"]), yv(c["y"])) for c in out["calls"]])
     return "(%s diag_trace (%s %s %s %s) %s %s %s)" % (lets, runner, natlit(case.get("npop", 4)), natlit(case["ndim"]), ops, exp, calls, fll(out["cb"]))
